@@ -253,10 +253,17 @@ static void run_case(int k, const std::string & head, const std::string & body)
                if (nd)
                {
                   std::vector<std::string> ix = IndexOf(*nd);
-                  if ((nd->HasChild(a[3].c_str()))&&(std::find(ix.begin(), ix.end(), a[3]) == ix.end())&&(pos <= ix.size()))
+                  if ((nd->HasChild(a[3].c_str()))&&(std::find(ix.begin(), ix.end(), a[3]) == ix.end()))
                   {
-                     (void) nd->InsertIndexEntryAt(pos, &S, a[3].c_str());
-                     S._indexingPresent = true;
+                     // an invalid position is documented to be refused (B_BAD_ARGUMENT); Queue::InsertItemAt() alone would append
+                     // while the subscribers are told the position as given
+                     const bool okc = nd->InsertIndexEntryAt(pos, &S, a[3].c_str()).IsOK();
+                     if (okc) S._indexingPresent = true;
+                     if ((okc)&&(pos > ix.size()))
+                     {
+                        std::ostringstream d; d << "node " << w.Canon(nd->GetNodePath()()) << " index of length " << ix.size() << ": InsertIndexEntryAt(" << pos << ") reported success and announces position " << pos;
+                        fail(cx, "positional-log invalid-insert-position-accepted", (int)(stepNo), "xia", d.str());
+                     }
                   }
                }
             }
